@@ -56,7 +56,7 @@ def _full_anc(nodes, trained_of):
 
 
 @st.composite
-def graphs(draw, max_nodes=10, with_assets=True, max_ports=3):
+def graphs(draw, max_nodes=10, with_assets=True, max_ports=3, apply_only=False):
     hp_st = st.dictionaries(st.sampled_from(['a', 'b']), st.integers(0, 3), max_size=2)
     groups = []
     nodes = []
@@ -80,7 +80,7 @@ def graphs(draw, max_nodes=10, with_assets=True, max_ports=3):
     head_nin = draw(st.integers(0, 1))
     new_group(head_kind, head_nin, draw(st.sampled_from([1, 1, 2, 3][:max_ports + 1])))
     nodes.append({'g': 0, 'mode': 'apply', 'in': []})
-    if draw(st.integers(0, 39)) == 0:  # the smallest valid segment: a single worker being head and tail at once
+    if not apply_only and draw(st.integers(0, 39)) == 0:  # the smallest valid segment: a single worker being head and tail at once
         groups[0]['nout'] = 1
         spec = {'groups': groups, 'nodes': nodes, 'tail': 0, 'wire': [], 'assets': None}
         if with_assets and head_kind == 'st' and draw(st.booleans()):
@@ -105,7 +105,7 @@ def graphs(draw, max_nodes=10, with_assets=True, max_ports=3):
 
     while len(nodes) < total:
         choice = draw(st.integers(0, 9))
-        if choice <= 2:  # trained fork of an existing or new stateful group
+        if choice <= 2 and not apply_only:  # trained fork of an existing or new stateful group
             cand = [g for g, spec in enumerate(groups) if spec['kind'] == 'st' and g not in trained_of]
             if cand and draw(st.booleans()):
                 g = cand[draw(st.integers(0, len(cand) - 1))]
@@ -133,15 +133,20 @@ def graphs(draw, max_nodes=10, with_assets=True, max_ports=3):
     consumed = {(p[0], p[1]) for n in nodes if n['mode'] == 'apply' for p in n['in']}
     consumed |= {tuple(n[k]) for n in nodes if n['mode'] == 'train' for k in ('train', 'label')}
     free = [p for p in ports if tuple(p) not in consumed]
-    if free and draw(st.booleans()):
+    if apply_only:
+        # single-sink table: the tail consumes one port of every node nobody listens to (plus a few random ports)
+        listened = {p[0] for p in consumed}
+        ins = [p for p in free if p[0] not in listened and p[1] == 0]
+        ins += [ports[draw(st.integers(0, len(ports) - 1))] for _ in range(draw(st.integers(0 if ins else 1, 2)))]
+    elif free and draw(st.booleans()):
         ins = free[:6]  # fully connected: the tail consumes the otherwise unconsumed outputs
     else:
         ins = [ports[draw(st.integers(0, len(ports) - 1))] for _ in range(draw(st.integers(1, 3)))]
-    g = new_group(draw(st.sampled_from(['fn', 'st'])), len(ins), draw(st.sampled_from([1, 1, 1, 0])))
+    g = new_group(draw(st.sampled_from(['fn', 'st'])), len(ins), 1 if apply_only else draw(st.sampled_from([1, 1, 1, 0])))
     nodes.append({'g': g, 'mode': 'apply', 'in': ins})
     tail = len(nodes) - 1
     # late trained forks may also hang on the tail output
-    if groups[g]['nout'] == 1 and draw(st.integers(0, 4)) == 0:
+    if groups[g]['nout'] == 1 and not apply_only and draw(st.integers(0, 4)) == 0:
         cand = [x for x, spec in enumerate(groups) if spec['kind'] == 'st' and x not in trained_of]
         if cand:
             x = cand[draw(st.integers(0, len(cand) - 1))]
